@@ -551,6 +551,29 @@ def rule_erase_inclusive(ctx: Ctx) -> RuleResult:
     return rr
 
 
+def rule_cursor_constrained(ctx: Ctx) -> RuleResult:
+    """set_term_cursor() clamps the requested position to the grid (constrain_coords) before storing it; the canvas
+    cursor derived from it must be built from the *clamped* coordinates, not from the raw arguments - a canvas whose
+    cursor lies outside it breaks every container that places the cursor."""
+    from ..rules.defuse import DefUse
+
+    p = ctx.p
+    rr = RuleResult("POSBOUND", "C15.16", "TermCanvas.set_term_cursor builds the canvas cursor from the constrained coordinates", floor=1)
+    fi = p.func(f"{VT}.TermCanvas.set_term_cursor")
+    du = DefUse(fi)
+    for node in du.cfg.nodes:
+        a = node.ast
+        if isinstance(a, ast.Assign) and any(isinstance(t, ast.Attribute) and t.attr == "cursor" for t in a.targets) and isinstance(a.value, ast.Tuple):
+            rr.inst(norm(a, 50), True, {"store": norm(a, 60)})
+            for nm in [x for x in ast.walk(a.value) if isinstance(x, ast.Name) and x.id in fi.params[1:3]]:
+                defs = du.reaching(nm.id, node)
+                raw = [dn for v, how, dn in defs if not (isinstance(v, ast.AST) and "constrain_coords" in ast.unparse(v))]
+                if raw:
+                    rr.add(finding("POSBOUND", fi, a, f"`{norm(a, 50)}` uses `{nm.id}` as it was passed in (or defaulted), not the value constrain_coords() clamped it to: after a cursor movement beyond the grid (CSI 500 C) the canvas reports a cursor outside itself", construct=f"canvas cursor from unconstrained {nm.id}"))
+                    break
+    return rr
+
+
 def run(ctx: Ctx):
     p = ctx.p
     tc = f"{VT}.TermCanvas"
@@ -574,6 +597,7 @@ def run(ctx: Ctx):
         rule_scroll_margin(ctx),
         rule_region_edits(ctx),
         rule_erase_inclusive(ctx),
+        rule_cursor_constrained(ctx),
     ]
     return out
 
@@ -582,6 +606,7 @@ from ..mutants import Mut  # noqa: E402
 
 _V = "urwid/vterm.py"
 MUTANTS = [
+    Mut("canvas-cursor-unconstrained", "urwid/vterm.py", "TermCanvas.set_term_cursor", "        self.term_cursor = x, y = self.constrain_coords(x, y)", "        self.term_cursor = self.constrain_coords(x, y)", "POSBOUND|vterm.TermCanvas.set_term_cursor"),
     Mut("ed1-stops-before-cursor", "urwid/vterm.py", "TermCanvas.csi_erase_display", "self.erase((0, 0), self.term_cursor)", "self.erase((0, 0), (self.term_cursor[0] - 1, self.term_cursor[1]))", "SIB|vterm.TermCanvas.csi_erase_display"),
     Mut("il-inserts-before-pop", "urwid/vterm.py", "TermCanvas.insert_lines", "            self.term.pop(self.scrollregion_end)\n            self.term.insert(row, self.empty_line())", "            self.term.insert(row, self.empty_line())\n            self.term.pop(self.scrollregion_end)", "ORDER|vterm.TermCanvas.insert_lines"),
     Mut("dl-outside-region", "urwid/vterm.py", "TermCanvas.remove_lines", "        if not self.scrollregion_start <= row <= self.scrollregion_end:\n            # outside the scrolling region: ignored\n            return\n", "", "ORDER|vterm.TermCanvas.remove_lines"),
